@@ -134,12 +134,15 @@ def run(tier):
     for kind, catcher, level, via in itertools.product(gen_prot.ERRVALS, ["pcall", "xpcall", "nested", "none"], [None, 1, 2, 0], ["error", "gerr", "gpanic", "assert"]):
         if via != "error" and (level is not None):
             continue
-        if via in ("gerr", "gpanic") and kind != "str":
-            continue
+        if via in ("gerr", "gpanic") and kind not in gen_prot.STRKINDS:
+            continue        # the host raisers take a message string
         fams.append(("errval",) + gen_prot.errval_program(kind, catcher, level, via) + (None,))
         if kind == "str" and level in (None, 2):
             for cs in ("emptykey", "oddkey", "method"):
                 fams.append(("errval",) + gen_prot.errval_program(kind, catcher, level, via, cs) + (None,))
+    # errors escaping coroutine.wrap functions, caught in the resumer (main thread or a coroutine)
+    for rk, res, cat in itertools.product(["error", "errtab", "fault", "gerr", "gpanic", "after-yield"], ["main", "coroutine"], ["pcall", "xpcall"]):
+        fams.append(("wraperr",) + gen_prot.wraperr_program(rk, res, cat) + (None,))
     # capturing functions retried after a failed protected call (the failed attempt's upvalues must be gone)
     import gen_clos
     for p, root in gen_clos.retry_cases():
@@ -159,7 +162,7 @@ def run(tier):
             flip = not flip
     verd, cov, allv, allo, stats = lsem.run_families(
         PROP, tier, progsA,
-        "(A) error(v[,level]) for v of 9 kinds x level {default,1,2,0} x raised via error/host RaiseError/Go panic in a host function/assert x caught by pcall/xpcall/nested pcall/nothing; capturing functions retried after failed protected calls; protected calls at call depth 1..20 with the fixed and the auto-growing (MinimizeStackMemory) frame stack; (B) corpus of protected bodies (pcall, xpcall, nested, inside a metamethod, inside a for-in iterator, unprotected up to the Go-side PCall) with a one-shot fault at every dispatch poll",
+        "(A) error(v[,level]) for v of 13 kinds (strings containing '%' among them) x level {default,1,2,0} x raised via error/host RaiseError/Go panic in a host function/assert x caught by pcall/xpcall/nested pcall/nothing; capturing functions retried after failed protected calls; errors escaping coroutine.wrap functions caught in a main-thread / coroutine resumer, thread identity and other coroutines afterwards; protected calls at call depth 1..20 with the fixed and the auto-growing (MinimizeStackMemory) frame stack; (B) corpus of protected bodies (pcall, xpcall, nested, inside a metamethod, inside a for-in iterator, unprotected up to the Go-side PCall) with a one-shot fault at every dispatch poll",
         [], t0, max_steps=20000, nontrivial_min_emits=2)
     # ---- (B) fault sweep
     nprog = 260 if thorough else 36
